@@ -116,10 +116,33 @@ def _run_one(v, case, scratch, i):
     env, _ = mapgen.oracle(case)
     inputs = mapgen.make_inputs(case)
     folder = os.path.join(scratch, f"run{i}")
+    # every fourth case: the mapped array roots ALSO have a declared default (same shape, other values); the inputs given to
+    # map win - for the results and for the labels
+    extra = {}
+    if i % 4 == 1:
+        for r, spec in case["roots"].items():
+            if spec["axes"] and spec["kind"] in ("list", "ndarray"):
+                d = np.empty(np.shape(inputs[r]), dtype=object)
+                for idx in np.ndindex(*d.shape):
+                    d[idx] = f"{r}-declared-default<{','.join(map(str, idx))}>"
+                d = d.tolist() if spec["kind"] == "list" else d
+                for f in case["funcs"]:
+                    if r in f["params"] and r not in (f.get("bound") or {}):
+                        extra.setdefault(f["name"], {}).setdefault("defaults", {})[r] = d
+        if extra:
+            v.count("cases_with_declared_defaults_overridden_by_inputs")
+    # every fourth case with a multi-output MapSpec function: that function's arrays live in another (persisted) storage class,
+    # chosen through a per-output storage dict keyed by the function's tuple of output names
+    storage = "file_array"
+    tup = [tuple(f["outs"]) for f in case["funcs"] if len(f["outs"]) > 1 and f["mapspec"]]
+    if i % 4 == 3 and tup:
+        storage = {"": "file_array", tup[0]: "dict"}
+        v.count("cases_with_a_per_output_storage_choice")
     try:
         with quiet():
-            p = mapgen.build_pipeline(case)
-            res = p.map(inputs, run_folder=folder, internal_shapes=mapgen.internal_shapes_arg(case), parallel=False, storage="file_array")
+            p = mapgen.build_pipeline(case, extra=extra)
+            res = p.map(inputs, run_folder=folder, internal_shapes=mapgen.internal_shapes_arg(case), parallel=False, storage=storage,
+                        persist_memory=True)
         if any(probes.render(res[o].output) != probes.render(env[o]) for f in case["funcs"] for o in f["outs"]):
             raise ValueError
     except Exception:  # noqa: BLE001
@@ -385,6 +408,8 @@ def finalize(agg, tier, seed):
         floors.append(f"only {c.get('zipped_coordinates_of_mixed_kinds', 0)} zipped coordinates over inputs of different element kinds (< 50)")
     if c.get("cases_reusing_the_name_of_a_reduced_axis", 0) < 20:
         floors.append(f"only {c.get('cases_reusing_the_name_of_a_reduced_axis', 0)} cases that map an input along the name of a reduced axis (< 20)")
+    if c.get("cases_with_declared_defaults_overridden_by_inputs", 0) < 20:
+        floors.append(f"only {c.get('cases_with_declared_defaults_overridden_by_inputs', 0)} cases with declared array defaults overridden by inputs (< 20)")
     if c.get("coordinate_expectations", 0) < 300:
         floors.append("fewer than 300 coordinate expectations checked")
     if c.get("selections_compared", 0) < 300:
